@@ -198,6 +198,30 @@ def expand_tuple_eq(items):
     return out
 
 
+def struct_eq_alternatives(items):
+    """comparison of a value with a struct constant, field by field: `X == S{f: a, g: b}` true is X.f == a and X.g == b;
+    false is X.f != a or X.g != b -- one alternative list of decisions per disjunct (a comparison with an Option
+    constant None reads as the presence test).  -> list of decision lists"""
+    alts = [[]]
+    for e, v in items:
+        comp = None
+        if e[0] == "bin" and e[1] in ("Eq", "Ne") and isinstance(v, int):
+            for a_, b_ in ((e[2], e[3]), (e[3], e[2])):
+                if a_[0] == "agg" and a_[3] is None and len(a_[4]) >= 2 and b_[0] != "agg":
+                    comp = [(("bin", "Eq", x_, ("field", b_, n_)) if not (x_[0] == "agg" and x_[2] == "None")
+                             else ("un", "Not", ("bin", "Eq", ("discr", ("field", b_, n_)), ("int", 1, "isize")))) for n_, x_ in a_[4]]
+                    break
+        if comp is None:
+            alts = [al + [(e, v)] for al in alts]
+            continue
+        holds = (e[1] == "Eq") == bool(v)
+        if holds:
+            alts = [al + [(c_, 1) for c_ in comp] for al in alts]
+        else:
+            alts = [al + [(c_, 0)] for al in alts for c_ in comp]
+    return alts
+
+
 def acceptance(f, L, name, noinline=None):
     """-> (straight DNF, {loop set canon: iteration DNF}, residual returns) of a validator"""
     b = f.need(name)
@@ -215,6 +239,16 @@ def acceptance(f, L, name, noinline=None):
             if p.ret != sym.TRUE:
                 items.append((norm_each(L.lift(p.ret), f.adts), 1))
             items = expand_tuple_eq(items)
+            alts_ = struct_eq_alternatives(items)
+            for items in alts_[1:]:
+                # further disjuncts of a negated struct comparison: the same path read with the other field differing
+                lst2 = []
+                for e, v in items:
+                    if (e[0] == "discr" and e[1][0] == "next") or sym.contains(e, lambda x: x[0] == "hv"):
+                        continue
+                    lst2.append(natom(king_as_set(prep(set_eq_as_emptiness(e))), v))
+                straight.append(lst2)
+            items = alts_[0]
             for e, v in items:
                 if e[0] == "discr" and e[1][0] == "next":
                     continue
@@ -247,13 +281,14 @@ def acceptance(f, L, name, noinline=None):
                 continue
             S = conds[idx][0][1][1]
             key = repr(setalg.canon(S)) if S[0] in setalg.SETOPS or S[0] == "get" else repr(S)
-            lst = []
-            for e, v in expand_tuple_eq(conds[idx + 1:]):
-                if sym.contains(e, lambda x: x[0] == "hv"):
-                    continue
-                e = set_eq_as_emptiness(e)
-                lst.append(natom(king_as_set(prep(e)), v))
-            loops.setdefault(key, (S, []))[1].append(lst)
+            for items_ in struct_eq_alternatives(expand_tuple_eq(conds[idx + 1:])):
+                lst = []
+                for e, v in items_:
+                    if sym.contains(e, lambda x: x[0] == "hv"):
+                        continue
+                    e = set_eq_as_emptiness(e)
+                    lst.append(natom(king_as_set(prep(e)), v))
+                loops.setdefault(key, (S, []))[1].append(lst)
     straight = [merge_empties(c) for c in straight]
     loops = {k: (S, [merge_empties(c) for c in dnf]) for k, (S, dnf) in loops.items()}
     return b, straight, loops
